@@ -182,6 +182,34 @@ theorem search_protocol (E : Model.Eng) (S : Spec.SEng) (t : List Nat) (L : Link
 theorem nonglobal_match (E : Model.Eng) (S : Spec.SEng) (t : List Nat) (L : Link E S t) (rx : RX) (hg : rx.global = false) :
     Model.builtinStringMatch E rx t = Spec.stringMatch S rx t := Lem.match_nonglobal_eq E S t L rx hg
 
+/-- **replace_concat.**  For every engine, subject, flag and replaceValue, String.prototype.replace
+    returns the §15.5.4.11 concatenation  gap₀ ++ f(m₁) ++ gap₁ ++ … ++ tail  over the matches found,
+    where f is `$`-expansion for a string, and the function's own result for a function. -/
+theorem replace_concat (E : Model.Eng) (rx : RX) (t : List Nat) (repl : Repl) :
+    (Model.builtinStringReplace E rx t repl).2 =
+      .str (Model.jsStr (Spec.replaceLoop t (modelF t repl) (Model.findAll E t (if rx.global then none else some 1)) 0 [])) :=
+  Lem.replace_is_concat E rx t repl
+
+/-- **replace_function_verbatim.**  A function replacer's result is used as it is: for EVERY list of
+    matches and EVERY returned string `ret` (containing `$&`, `$1`, `$$`, … or not) otto's loop yields the
+    concatenation of the gaps, `ret` once per match, and the tail – no Table 22 expansion. -/
+theorem replace_function_verbatim (t ret : List Nat) (found : List Caps) (li : Nat) (acc : List Nat) :
+    (let p := Model.replaceLoop t (fun _ => ret) found li acc
+     if p.2 ≠ t.length then p.1 ++ t.drop p.2 else p.1) = Spec.replaceLoop t (fun _ => ret) found li acc :=
+  Lem.replaceLoop_eq t (fun _ => ret) found li acc
+
+/-- one match (a, b):  t[0:a] ++ ret ++ t[b:] -/
+theorem replace_function_single (t ret : List Nat) (mt : Caps) :
+    (let p := Model.replaceLoop t (fun _ => ret) [mt] 0 []
+     if p.2 ≠ t.length then p.1 ++ t.drop p.2 else p.1) = t.take (capStart mt) ++ ret ++ t.drop (capEnd mt) :=
+  Lem.replace_const_single t ret mt
+
+/-- "abc".replace(/b/, function(){ return "$&$&" }) is "a$&$&c", while the STRING "$&$&" gives "abbc" -/
+example : (Model.builtinStringReplace (charEngine (dG false false) (.ch (.lit 98))) ⟨false, .int 0⟩ [97, 98, 99] (.const [36, 38, 36, 38])).2
+      = .str [97, 36, 38, 36, 38, 99] ∧
+    (Model.builtinStringReplace (charEngine (dG false false) (.ch (.lit 98))) ⟨false, .int 0⟩ [97, 98, 99] (.str [36, 38, 36, 38])).2
+      = .str [97, 98, 98, 99] := by decide
+
 /-! ## 5. end to end: the real matcher satisfies the link -/
 
 /-- **matcher_context_free.**  A pattern without `^`, `\b`, `\B` matches in the suffix `s[k:]` exactly as
